@@ -38,4 +38,22 @@ let () =
       (* the refreshed share is old share + (new - old): the model's refresh_share applied to the observed zero-share; secret unchanged *)
       let q = z_of_hex q in let z = z_of_zarith (ZA.erem (ZA.sub (zarith_of_z (z_of_hex x2)) (zarith_of_z (z_of_hex x1))) (zarith_of_z q)) in
       (hex_of_z (refresh_share q (z_of_hex x1) z) ^ "," ^ s1, x2 ^ "," ^ s2) | _ -> failwith "arity");
+  (* sharing phase of GJKR-DKG as a round function *)
+  let dot_list t = if t = "" then [] else List.map z_of_hex (List.filter (fun x -> x <> "") (String.split_on_char '.' t)) in
+  let semis t = String.split_on_char ';' t in
+  let mk_b cm cs a = let rec go l1 l2 l3 = match l1, l2, l3 with
+      | c :: r1, s :: r2, a :: r3 -> { b_C = zlist_of_tok c; b_compl = dot_list s; b_ans = dot_list a } :: go r1 r2 r3
+      | _ -> [] in go (semis cm) (semis cs) (semis a) in
+  let pairs_opt t = List.map (fun s -> if s = "none" then None else
+      match String.split_on_char ':' s with [a; b] -> Some (z_of_hex a, z_of_hex b) | _ -> failwith "pair") (semis t) in
+  let qual_tok l = if l = [] then "_" else String.concat "," (List.map (fun x -> string_of_int (int_of_z x)) l) in
+  register "dkg_view" (function [p; q; g; h; n; t; i; cm; pairs; cs; a; out] ->
+      let r = dkg_view (z_of_hex p) (z_of_hex q) (z_of_hex g) (z_of_hex h) (z_of_hex n) (z_of_hex t) (z_of_hex i) (mk_b cm cs a) (pairs_opt pairs) in
+      ((match r with None -> "none" | Some (ql, (x, x')) -> qual_tok ql ^ "|" ^ hex_of_z x ^ "," ^ hex_of_z x'), out) | _ -> failwith "arity");
+  register "dkg_stream" (function [p; q; g; h; n; i; cm; pairs; out] ->
+      let b = List.map (fun c -> { b_C = zlist_of_tok c; b_compl = []; b_ans = [] }) (semis cm) in
+      let st = dkg_own_stream (z_of_hex p) (z_of_hex q) (z_of_hex g) (z_of_hex h) (z_of_hex n) (z_of_hex i) b (pairs_opt pairs) in
+      (String.concat "." (List.map hex_of_z st), out) | _ -> failwith "arity");
+  register "dkg_glob" (function [p; q; g; h; n; t; cm; cs; a; out] ->
+      (qual_tok (qual_glob (z_of_hex p) (z_of_hex q) (z_of_hex g) (z_of_hex h) (z_of_hex n) (z_of_hex t) (mk_b cm cs a)), out) | _ -> failwith "arity");
   main ()
